@@ -75,7 +75,7 @@ class World:
     def edit(self):
         rng = self.rng
         files, dirs = self.files(), self.dirs()
-        op = rng.choice(['add', 'add', 'add', 'modify', 'touch', 'rename', 'delete', 'dup', 'mkdir', 'symlink', 'revive', 'chmod'])
+        op = rng.choice(['add', 'add', 'add', 'modify', 'touch', 'rename', 'delete', 'dup', 'mkdir', 'symlink', 'revive', 'chmod', 'nsmod', 'nsmod'])
         try:
             if op == 'add' or not files:
                 d = rng.choice(dirs)
@@ -89,6 +89,18 @@ class World:
                 self.write(p, self.next_cid, rng.choice(SIZES))
             elif op == 'touch':
                 self.fresh_mtime(rng.choice(files))
+            elif op == 'nsmod':
+                # rewritten in place: same inode, same size, mtime differing only in its sub-second part
+                p = rng.choice(files)
+                st = os.lstat(p)
+                if st.st_size > 0 and st.st_mode & 0o200:
+                    self.next_cid += 1
+                    with open(p, 'r+b') as f:
+                        f.write(content(self.next_cid, st.st_size))
+                    self.mtime_counter += 1
+                    sec = st.st_mtime_ns // 10**9
+                    t = sec * 10**9 + (st.st_mtime_ns % 10**9 + 1000 * self.mtime_counter + 1) % 10**9
+                    os.utime(p, ns=(t, t))
             elif op == 'rename':
                 p = rng.choice(files)
                 q = os.path.join(rng.choice(dirs), rng.choice(NAMES) + 'r')
